@@ -45,7 +45,12 @@ func ToEncoder(p loader.Function) vars.Encoder {
 func EncodeTypedPointer(buf *[]byte, vt *rt.GoType, vp *unsafe.Pointer, sb *vars.Stack, fv uint64) error {
 	if vt == nil {
 		return prim.EncodeNil(buf)
-	} else if fn, err := vars.FindOrCompile(vt, (fv&(1<<alg.BitPointerValue)) != 0, compiler); err != nil {
+	}
+
+	/* the pointer-value flag describes this value only, not the values its program encodes */
+	pv := (fv & (1 << alg.BitPointerValue)) != 0
+	fv &^= 1 << alg.BitPointerValue
+	if fn, err := vars.FindOrCompile(vt, pv, compiler); err != nil {
 		return err
 	} else if vt.Indirect() {
 		return fn.(vars.Encoder)(buf, *vp, sb, fv)
